@@ -110,6 +110,10 @@ class CallMixin:
                 if any('_arg' in t for t in cs):
                     for n, a in enumerate(node.args):      # the actual arguments, for obligations about them
                         extra['_arg%d' % n] = self.pure(a, st)
+                if any('_kw_' in t for t in cs):
+                    for kw in node.keywords:
+                        if kw.arg:
+                            extra['_kw_' + kw.arg] = self.pure(kw.value, st)
                 for n, text in enumerate(cs):
                     self.oblige(st, 'callsite', '%s:%d' % (ast.unparse(f), n), text, self.ev_spec(text, st, extra), node.lineno)
         rule = self.find_rule(ast.unparse(f))
@@ -675,6 +679,9 @@ class CallMixin:
 
     def bi_isinstance(self, args, kws, st, node, k):
         o, c = args
+        if isinstance(o, VOpt):        # isinstance(None, X) is False for every class named in the repo's tests
+            return self.bi_isinstance([o.inner, c], kws, st, node,
+                                      lambda s, v: k(s, VBool(z3.And(z3.Not(o.isnone), v.z))))
         names = [x.name for x in c.items] if isinstance(c, VTup) else [c.name]
         if isinstance(o, VExc):
             from .engine import exc_isinstance
